@@ -10,7 +10,7 @@ trap 'git -C "$R" checkout -- . ; rm -rf evidence; mkdir -p evidence; cp -a "$bk
 missed=0
 for d in seeded/*/; do
   n=$(basename "$d")
-  p=$(python3 -c "import json;print(json.load(open('$d/meta.json'))['breaks_property'])")
+  p=$(python3 -c "import json;m=json.load(open('$d/meta.json'));print(m.get('run_check', m['breaks_property']))")
   git -C "$R" apply "$(pwd)/$d/patch.diff" || { echo "$n: patch does not apply"; continue; }
   ./check "$p" quick > /tmp/all_seeds.$$.log 2>&1; rc=$?
   kinds=$(grep -o "^  ([a-zA-Z0-9:_-]*)" /tmp/all_seeds.$$.log | sort | uniq -c | tr '\n' ' ')
